@@ -95,22 +95,31 @@ func CheckDeterminism(run *core.Run, prog *load.Program) {
 					case full == "os.Getenv" || full == "os.LookupEnv" || full == "os.Environ" || full == "os.Getpid" || full == "os.Hostname" || full == "os.Getwd" || full == "os.UserHomeDir":
 						run.Check("G-DET/environment", fname+"→"+full, prog.Pos(s.Pos()), false, fname+" reads the process environment ("+full+"): the output would depend on more than the source package and the options")
 					case p == "maps" && (callee.Name() == "Keys" || callee.Name() == "Values" || callee.Name() == "All"):
-					// a map iteration in disguise: fine when it is handed straight to a sort
-					nRanges++
-					key := fname + ":" + callee.Name() + "(" + types.ExprString(s.Args[0]) + ")"
-					okSorted := false
-					ast.Inspect(fd.Body, func(o ast.Node) bool {
-						oc, isCall := o.(*ast.CallExpr)
-						if !isCall || len(oc.Args) == 0 || ast.Unparen(oc.Args[0]) != ast.Expr(s) {
+						// a map iteration in disguise: fine when it is handed straight to a sort
+						nRanges++
+						key := fname + ":" + callee.Name() + "(" + types.ExprString(s.Args[0]) + ")"
+						okSorted := false
+						ast.Inspect(fd.Body, func(o ast.Node) bool {
+							oc, isCall := o.(*ast.CallExpr)
+							if !isCall || len(oc.Args) == 0 || ast.Unparen(oc.Args[0]) != ast.Expr(s) {
+								return true
+							}
+							if ofn, isFn := typeutil.Callee(info, oc).(*types.Func); isFn && ofn.Pkg() != nil && ofn.Pkg().Path() == "slices" && callee.Name() != "All" {
+								switch ofn.Name() {
+								case "Sorted":
+									okSorted = true
+								case "SortedFunc", "SortedStableFunc":
+									if len(oc.Args) == 2 {
+										if _, ok := keyOrder(info, oc.Args[1]); ok {
+											okSorted = true
+										}
+									}
+								}
+							}
 							return true
-						}
-						if ofn, isFn := typeutil.Callee(info, oc).(*types.Func); isFn && ofn.Pkg() != nil && ofn.Pkg().Path() == "slices" && ofn.Name() == "Sorted" && callee.Name() != "All" {
-							okSorted = true
-						}
-						return true
-					})
-					run.Check("G-DET/map-range", key, prog.Pos(s.Pos()), okSorted, fmt.Sprintf("%s iterates over the map %s through maps.%s and does not hand the sequence straight to slices.Sorted: the iteration order is random and can reach the output", fname, types.ExprString(s.Args[0]), callee.Name()))
-				case p == "fmt" && len(s.Args) > 0:
+						})
+						run.Check("G-DET/map-range", key, prog.Pos(s.Pos()), okSorted, fmt.Sprintf("%s iterates over the map %s through maps.%s and does not hand the sequence straight to slices.Sorted (or SortedFunc with a comparator by one function of each element): the iteration order is random and can reach the output", fname, types.ExprString(s.Args[0]), callee.Name()))
+					case p == "fmt" && len(s.Args) > 0:
 						if tv := info.Types[s.Args[0]]; tv.Value != nil && strings.Contains(tv.Value.ExactString(), "%p") {
 							run.Check("G-DET/pointer-format", fname, prog.Pos(s.Pos()), false, fname+" formats a pointer with %p")
 						}
@@ -126,7 +135,7 @@ func CheckDeterminism(run *core.Run, prog *load.Program) {
 				}
 				nRanges++
 				key := fname + ":" + types.ExprString(s.X)
-				ok, how := orderInsensitive(info, fd, s)
+				ok, how := orderInsensitive(prog, info, fd, s)
 				if !ok {
 					if reason, listed := mapRangeTable[key]; listed {
 						ok, how = true, "table: "+reason
@@ -152,7 +161,40 @@ func CheckDeterminism(run *core.Run, prog *load.Program) {
 
 // orderInsensitive recognises the idioms under which a map iteration cannot
 // influence anything through its order.
-func orderInsensitive(info *types.Info, fd *ast.FuncDecl, rs *ast.RangeStmt) (bool, string) {
+func orderInsensitive(prog *load.Program, info *types.Info, fd *ast.FuncDecl, rs *ast.RangeStmt) (bool, string) {
+	// idiom 0: set building — the body is one store of a constant into another map, keyed by the
+	// element: whatever the order, the same keys end up holding the same value.
+	if len(rs.Body.List) == 1 {
+		if as, ok := rs.Body.List[0].(*ast.AssignStmt); ok && as.Tok == token.ASSIGN && len(as.Lhs) == 1 && len(as.Rhs) == 1 {
+			if ix, ok := ast.Unparen(as.Lhs[0]).(*ast.IndexExpr); ok {
+				if _, isMap := info.TypeOf(ix.X).Underlying().(*types.Map); isMap {
+					constant := info.Types[as.Rhs[0]].Value != nil
+					if cl, ok := ast.Unparen(as.Rhs[0]).(*ast.CompositeLit); ok && len(cl.Elts) == 0 {
+						constant = true // struct{}{}
+					}
+					if id, ok := ast.Unparen(as.Rhs[0]).(*ast.Ident); ok && (id.Name == "true" || id.Name == "false") {
+						if _, isConst := info.Uses[id].(*types.Const); isConst {
+							constant = true
+						}
+					}
+					if constant && !sameMapExpr(ix.X, rs.X) {
+						return true, "set building: a constant is stored under a key computed from the element"
+					}
+				}
+			}
+		}
+	}
+	self, _ := info.Defs[fd.Name].(*types.Func)
+	// idiom 0b: an unexported helper that hands the values (or keys) out unordered: every caller sorts
+	// what it gets by one function of each element before anything else looks at it.
+	if why, ok := collectAndReturn(prog, info, fd, rs, self); ok {
+		return true, why
+	}
+	// idiom 0c: an unexported first-match helper driven by a predicate parameter: every caller passes
+	// `func(e) bool { return f(e) == <invariant> }` (order-insensitive iff the entries are distinct under f).
+	if why, ok := firstMatchByPredicate(prog, info, fd, rs, self); ok {
+		return true, why
+	}
 	// idiom 1: collect — every statement of the body is `s = append(s, <key or value>)` into one slice
 	// variable, and the next use of s after the loop is a sort by a total order.
 	var target *types.Var
@@ -409,6 +451,13 @@ func stmtAfter(root *ast.BlockStmt, target ast.Stmt) []ast.Stmt {
 // where f is the identity or a niladic method, and the map is keyed by that
 // very function of its values (so the order is total on distinct elements).
 func strictKeyOrder(info *types.Info, cmp ast.Expr, s *types.Var, rs *ast.RangeStmt) (string, bool) {
+	return keyOrder(info, cmp)
+}
+
+// keyOrder: the comparator is a function literal with one return that orders its two operands (indices
+// into the slice, or the elements themselves) by the same function of each: f(a) < f(b), f(a) > f(b),
+// or strings.Compare / cmp.Compare / bytes.Compare of f(a) and f(b).
+func keyOrder(info *types.Info, cmp ast.Expr) (string, bool) {
 	fl, ok := ast.Unparen(cmp).(*ast.FuncLit)
 	if !ok || len(fl.Body.List) != 1 {
 		return "comparator is not a single-return function literal", false
@@ -417,26 +466,107 @@ func strictKeyOrder(info *types.Info, cmp ast.Expr, s *types.Var, rs *ast.RangeS
 	if !ok || len(ret.Results) != 1 {
 		return "comparator is not a single-return function literal", false
 	}
-	be, ok := ast.Unparen(ret.Results[0]).(*ast.BinaryExpr)
-	if !ok || (be.Op != token.LSS && be.Op != token.GTR) {
+	var lx, rx ast.Expr
+	switch x := ast.Unparen(ret.Results[0]).(type) {
+	case *ast.BinaryExpr:
+		if x.Op != token.LSS && x.Op != token.GTR {
+			return "comparator is not a strict < or >", false
+		}
+		lx, rx = x.X, x.Y
+	case *ast.CallExpr:
+		fn, _ := typeutil.Callee(info, x).(*types.Func)
+		if fn == nil || len(x.Args) != 2 {
+			return "comparator is not a strict < or > or a three-way comparison", false
+		}
+		switch fn.FullName() {
+		case "strings.Compare", "cmp.Compare", "bytes.Compare":
+		default:
+			return "comparator is not a strict < or > or a three-way comparison", false
+		}
+		lx, rx = x.Args[0], x.Args[1]
+	default:
 		return "comparator is not a strict < or >", false
 	}
-	l, r := types.ExprString(be.X), types.ExprString(be.Y)
-	// same shape on both sides with different index variables
 	var names []string
 	for _, f := range fl.Type.Params.List {
 		for _, n := range f.Names {
 			names = append(names, n.Name)
 		}
 	}
-	if len(names) != 2 {
-		return "comparator does not take two indices", false
+	if len(names) != 2 || names[0] == names[1] || names[0] == "_" || names[1] == "_" {
+		return "comparator does not take two operands", false
 	}
-	if strings.ReplaceAll(l, "["+names[0]+"]", "[·]") != strings.ReplaceAll(r, "["+names[1]+"]", "[·]") {
+	shape := func(e ast.Expr, name string) (string, bool) {
+		uses := false
+		var b strings.Builder
+		var walk func(n ast.Expr) bool
+		walk = func(n ast.Expr) bool {
+			switch x := n.(type) {
+			case *ast.Ident:
+				if x.Name == name {
+					uses = true
+					b.WriteString("·")
+				} else if x.Name == names[0] || x.Name == names[1] {
+					return false // mentions the other operand
+				} else {
+					b.WriteString(x.Name)
+				}
+			case *ast.ParenExpr:
+				return walk(x.X)
+			case *ast.SelectorExpr:
+				if !walk(x.X) {
+					return false
+				}
+				b.WriteString("." + x.Sel.Name)
+			case *ast.IndexExpr:
+				if !walk(x.X) {
+					return false
+				}
+				b.WriteString("[")
+				if !walk(x.Index) {
+					return false
+				}
+				b.WriteString("]")
+			case *ast.CallExpr:
+				if !walk(x.Fun) {
+					return false
+				}
+				b.WriteString("(")
+				for i, a := range x.Args {
+					if i > 0 {
+						b.WriteString(",")
+					}
+					if !walk(a) {
+						return false
+					}
+				}
+				b.WriteString(")")
+			case *ast.StarExpr:
+				b.WriteString("*")
+				return walk(x.X)
+			case *ast.BasicLit:
+				b.WriteString(x.Value)
+			default:
+				return false
+			}
+			return true
+		}
+		if !walk(e) || !uses {
+			return "", false
+		}
+		return b.String(), true
+	}
+	l, ok1 := shape(lx, names[0])
+	r, ok2 := shape(rx, names[1])
+	if !ok1 || !ok2 {
+		// the operands may be written the other way round (b before a): still the same function of each
+		l, ok1 = shape(lx, names[1])
+		r, ok2 = shape(rx, names[0])
+	}
+	if !ok1 || !ok2 || l != r {
 		return "the two sides of the comparison apply different functions", false
 	}
-	shape := strings.ReplaceAll(l, "["+names[0]+"]", "[·]")
-	return shape + " (distinct for distinct map entries iff the map is keyed by it — C11(b) checks that key and printed path agree)", true
+	return l + " (distinct for distinct map entries iff the map is keyed by it — C11(b) checks that key and printed path agree)", true
 }
 
 func hasCallWithEffects(info *types.Info, e ast.Expr) bool {
@@ -530,4 +660,188 @@ func CheckNoGlobalWrites(run *core.Run, prog *load.Program, rule string) {
 		})
 	})
 	run.Check(rule, "no-writes", "-", n == 0, "")
+}
+
+func sameMapExpr(a, b ast.Expr) bool { return types.ExprString(a) == types.ExprString(b) }
+
+// collectAndReturn: the loop appends every key or value to one slice, the function returns that slice
+// right after the loop, and every static call of the (unexported) function binds the result to a local
+// whose next use is a sort by a total order — or hands it straight to such a sort.
+func collectAndReturn(prog *load.Program, info *types.Info, fd *ast.FuncDecl, rs *ast.RangeStmt, self *types.Func) (string, bool) {
+	if self == nil || self.Exported() || len(rs.Body.List) != 1 {
+		return "", false
+	}
+	as, ok := rs.Body.List[0].(*ast.AssignStmt)
+	if !ok || len(as.Lhs) != 1 || len(as.Rhs) != 1 {
+		return "", false
+	}
+	tid, ok := as.Lhs[0].(*ast.Ident)
+	call, ok2 := as.Rhs[0].(*ast.CallExpr)
+	if !ok || !ok2 || len(call.Args) != 2 {
+		return "", false
+	}
+	if fid, ok := call.Fun.(*ast.Ident); !ok || fid.Name != "append" {
+		return "", false
+	} else if _, isB := info.Uses[fid].(*types.Builtin); !isB {
+		return "", false
+	}
+	a0, ok := call.Args[0].(*ast.Ident)
+	if !ok || info.ObjectOf(a0) != info.ObjectOf(tid) {
+		return "", false
+	}
+	el, ok := call.Args[1].(*ast.Ident)
+	if !ok || !(sameIdent(info, el, rs.Key) || sameIdent(info, el, rs.Value)) {
+		return "", false
+	}
+	target, _ := info.ObjectOf(tid).(*types.Var)
+	next := stmtAfter(fd.Body, rs)
+	if target == nil || len(next) == 0 {
+		return "", false
+	}
+	ret, ok := next[0].(*ast.ReturnStmt)
+	if !ok || len(ret.Results) != 1 || !sameObjExpr(info, ret.Results[0], target) {
+		return "", false
+	}
+	calls := staticCallsOf(prog, self)
+	if len(calls) == 0 {
+		return "", false
+	}
+	for _, cs := range calls {
+		if !sortedAtCaller(cs) {
+			return "", false
+		}
+	}
+	return fmt.Sprintf("collect and return unordered; each of the %d callers sorts the result by a total order before any other use", len(calls)), true
+}
+
+func sortedAtCaller(cs staticCall) bool {
+	info := cs.info
+	sorts := func(call *ast.CallExpr, isArg func(ast.Expr) bool) bool {
+		fn, ok := typeutil.Callee(info, call).(*types.Func)
+		if !ok || len(call.Args) == 0 || !isArg(call.Args[0]) {
+			return false
+		}
+		switch fn.FullName() {
+		case "sort.Strings", "sort.Ints", "slices.Sort":
+			return true
+		case "sort.Slice", "sort.SliceStable", "slices.SortFunc", "slices.SortStableFunc":
+			if len(call.Args) == 2 {
+				_, ok := keyOrder(info, call.Args[1])
+				return ok
+			}
+		}
+		return false
+	}
+	// x := helper(m); sort(x)
+	var holder *types.Var
+	var at ast.Stmt
+	ast.Inspect(cs.fd.Body, func(n ast.Node) bool {
+		if as, ok := n.(*ast.AssignStmt); ok && len(as.Lhs) == 1 && len(as.Rhs) == 1 && ast.Unparen(as.Rhs[0]) == ast.Expr(cs.call) {
+			if id, ok := as.Lhs[0].(*ast.Ident); ok {
+				holder, _ = info.ObjectOf(id).(*types.Var)
+				at = as
+			}
+		}
+		return true
+	})
+	if holder == nil {
+		return false
+	}
+	for _, st := range stmtAfter(cs.fd.Body, at) {
+		if !mentionsObj(info, st, holder) {
+			continue
+		}
+		es, ok := st.(*ast.ExprStmt)
+		if !ok {
+			return false
+		}
+		call, ok := es.X.(*ast.CallExpr)
+		return ok && sorts(call, func(e ast.Expr) bool { return sameObjExpr(info, e, holder) })
+	}
+	return false
+}
+
+// firstMatchByPredicate: the loop body is `if pred(elem) { return ... }` for a function parameter pred.
+func firstMatchByPredicate(prog *load.Program, info *types.Info, fd *ast.FuncDecl, rs *ast.RangeStmt, self *types.Func) (string, bool) {
+	if self == nil || self.Exported() {
+		return "", false
+	}
+	cond, ok := firstMatchCond(rs)
+	if !ok {
+		return "", false
+	}
+	if ue, ok := ast.Unparen(cond).(*ast.UnaryExpr); ok && ue.Op == token.NOT {
+		cond = ue.X
+	}
+	call, ok := ast.Unparen(cond).(*ast.CallExpr)
+	if !ok || len(call.Args) != 1 {
+		return "", false
+	}
+	pid, ok := ast.Unparen(call.Fun).(*ast.Ident)
+	el, ok2 := ast.Unparen(call.Args[0]).(*ast.Ident)
+	if !ok || !ok2 || !(sameIdent(info, el, rs.Key) || sameIdent(info, el, rs.Value)) {
+		return "", false
+	}
+	pi, k := -1, 0
+	for _, fl := range fd.Type.Params.List {
+		for _, nm := range fl.Names {
+			if info.Defs[nm] == info.ObjectOf(pid) {
+				pi = k
+			}
+			k++
+		}
+	}
+	if pi < 0 {
+		return "", false
+	}
+	calls := staticCallsOf(prog, self)
+	if len(calls) == 0 {
+		return "", false
+	}
+	by := ""
+	for _, cs := range calls {
+		if pi >= len(cs.call.Args) {
+			return "", false
+		}
+		lit, ok := ast.Unparen(cs.call.Args[pi]).(*ast.FuncLit)
+		if !ok || len(lit.Body.List) != 1 || lit.Type.Params == nil || len(lit.Type.Params.List) != 1 || len(lit.Type.Params.List[0].Names) != 1 {
+			return "", false
+		}
+		ret, ok := lit.Body.List[0].(*ast.ReturnStmt)
+		if !ok || len(ret.Results) != 1 {
+			return "", false
+		}
+		be, ok := ast.Unparen(ret.Results[0]).(*ast.BinaryExpr)
+		if !ok || be.Op != token.EQL {
+			return "", false
+		}
+		param := cs.info.Defs[lit.Type.Params.List[0].Names[0]]
+		uses := func(e ast.Expr) bool {
+			hit := false
+			ast.Inspect(e, func(n ast.Node) bool {
+				if id, ok := n.(*ast.Ident); ok && cs.info.ObjectOf(id) == param {
+					hit = true
+				}
+				return !hit
+			})
+			return hit
+		}
+		var side ast.Expr
+		switch {
+		case uses(be.X) && !uses(be.Y):
+			side = be.X
+		case uses(be.Y) && !uses(be.X):
+			side = be.Y
+		default:
+			return "", false
+		}
+		f := "the value"
+		if c, ok := ast.Unparen(side).(*ast.CallExpr); ok {
+			if sel, ok := ast.Unparen(c.Fun).(*ast.SelectorExpr); ok {
+				f = sel.Sel.Name + "()"
+			}
+		}
+		by = f
+	}
+	return "assumed: first match by " + by + " through a predicate — order-insensitive iff the entries are pairwise distinct under it (for import qualifiers that is what AddImport's conflict resolution establishes; C11's undecided clause)", true
 }
